@@ -94,3 +94,28 @@ def big_closure_pda(rng, depth=None, needle=None):
         delta.append([chain[i], e, c, [[chain[i + 1], e]]])
     delta.append(['acc', 'a', e, [['acc', e]]])
     return {'kind': 'pda', 'Q': Q + P, 'Sigma': ['a'], 'Gamma': ['x', 'y'], 'delta': delta, 'q0': 's0', 'F': ['acc'], 'eps': e}
+
+
+def ambiguous_stack_pda(rng):
+    """Legal but unusual: a stack alphabet that is not uniquely decodable (X and XX, or X, Y and XY).  Two different
+    stacks with the same concatenation arise in the same state after the same input; only one of them can continue
+    to the accepting state.  Anything that identifies a configuration with its printed form confuses them."""
+    e = 'ε'
+    if rng.random() < 0.5:
+        one, two, pair = 'X', 'X', 'XX'
+        gamma = ['X', 'XX']
+    else:
+        one, two, pair = 'X', 'Y', 'XY'
+        gamma = ['X', 'Y', 'XY']
+    a, b = 'a', 'b'
+    # s --a, push one--> m ;  m --eps, push two--> p  (stack [one, two]) ;  m --eps, replace one by pair--> p  (stack [pair])
+    delta = [['s', a, e, [['m', one]]], ['m', e, e, [['p', two]]], ['m', e, one, [['p', pair]]]]
+    if rng.random() < 0.5:
+        delta.append(['p', b, pair, [['q', e]]])                   # only [pair] continues
+    else:
+        delta.append(['p', b, two, [['r', e]]])                    # only [one, two] continues: pop two, then one
+        delta.append(['r', e, one, [['q', e]]])
+    if rng.random() < 0.5:
+        delta.append(['q', a, e, [['q', e]]])
+    Q = ['s', 'm', 'p', 'r', 'q']
+    return {'kind': 'pda', 'Q': Q, 'Sigma': [a, b], 'Gamma': gamma, 'delta': delta, 'q0': 's', 'F': ['q'], 'eps': e}
